@@ -328,14 +328,16 @@ def run(ctx: RuleContext, p: Program) -> None:
     from . import round4
     ctx.try_rule(round4.rule_claim_descend, p, 'CLAIM-DESCEND')
     ctx.try_rule(round4.rule_claim_found, p, 'CLAIM-FOUND')
-    ctx.try_rule(round4.rule_find_sem, p, 'FIND-SEM', 3 if ctx.tier == 'quick' else 4)
-    ctx.try_rule(round4.rule_claim_sem, p, 'CLAIM-SEM', 3 if ctx.tier == 'quick' else 4)
+    ctx.try_rule(round4.rule_find_sem, p, 'FIND-SEM', 3 if ctx.tier == 'quick' else 5)
+    ctx.try_rule(round4.rule_claim_sem, p, 'CLAIM-SEM', 3 if ctx.tier == 'quick' else 5)
     ctx.try_rule(round4.rule_id_cmp, p, 'ID-CMP')
     ctx.try_rule(rule_postlex_block, p, 'POSTLEX-BLOCK')
     from . import presence
     ctx.try_rule(presence.rule_presence_truth, p, 'PRESENCE-TRUTH')
     from . import claimorder
     ctx.try_rule(claimorder.rule_splice_order, p, 'SPLICE-ORDER')
+    from . import round4 as _r4
+    ctx.try_rule(_r4.rule_iter_once, p, 'ITER-ONCE')
     ctx.not_decided += ['attribution rules for each layout (blank lines, indentation classes)', 'idempotence and '
                         'claim/unclaim restoration as runtime facts', 'that default parsing leaves no comment unowned']
     ctx.assumptions += ['a comment is owned iff it is stored in a _leading/_trailing slot or in Repeated.items']
